@@ -12,7 +12,7 @@
    Every failing event is reported (<<"REJECT", tid, l, why>>); ACCEPT only if none failed. *)
 EXTENDS Naturals, Sequences, FiniteSets, TLC, Json, IOUtils
 
-CONSTANTS MaxItems, MaxDepth, MaxScopes, MaxExtras, Units, EmitMod, EmitRem
+CONSTANTS MaxItems, MaxDepth, MaxScopes, MaxExtras, Units, EmitMod, EmitRem, Fixed
 VARIABLES prog, unit
 INSTANCE Nesting
 
